@@ -27,5 +27,12 @@ theorem wfInv : theTables.WFInv where
   modules_ok := by decide +kernel
   envs_ok := by decide +kernel
   default_env := by decide +kernel
+  accent_names := by decide +kernel
+  special_hash := by decide +kernel
+  lang_en := by decide +kernel
+  langs_ok := by decide +kernel
+  item_labels := by decide +kernel
+  babel_english := by decide +kernel
+  decimal_ascii := by decide +kernel
 
 end Yalafi.Generated
